@@ -183,7 +183,7 @@ func TestTerminatingPrograms(t *testing.T) {
 				proper := checkAt(t, name, c, k, base.Trace, false)
 				evid.Case(fmt.Sprintf("%s/%s/%d", name, skel, k), proper, name)
 			}
-			if base.Polls == 0 && len(base.Trace) > 1 {
+			if base.Polls == 0 && len(c.Scripts[c.Root]) > 0 {
 				rk.Fail(t, name, replay{c.Replay(""), 1}, "%s: the signal was never polled during a run with %d probe records\nscript:\n%s", name, len(base.Trace), c.Texts[c.Root])
 			}
 			evid.Sample(map[string]any{"interpreter": name, "script": c.Texts[c.Root], "polls": base.Polls, "probe_records": len(base.Trace)})
@@ -284,6 +284,8 @@ func TestRaisedDuringBuiltin(t *testing.T) {
 					rk.Fail(t, slot, rp, "%s: the run kept executing after the flag was raised during probe call %d (100 probe calls later it was still running)\nscript:\n%s", who, at, c.Texts[c.Root])
 				case o.Err != nil:
 					rk.Fail(t, slot, rp, "%s: cancelled run returned an error: %v", who, o.Err)
+				case o.Polls == 0:
+					rk.Fail(t, slot, rp, "%s: the signal given to the run was never polled (the program has %d statements at top level)\nscript:\n%s", who, len(c.Scripts[c.Root]), c.Texts[c.Root])
 				case len(o.Trace) >= at && o.AfterRaise > 0:
 					rk.Fail(t, slot, rp, "%s: %d probe call(s) executed after the flag was raised during probe call %d (each statement holds one probe call: at most the statement in progress may finish)\nlast records: %v\nscript:\n%s", who, o.AfterRaise, at, o.Trace[len(o.Trace)-min(len(o.Trace), 4):], c.Texts[c.Root])
 				}
@@ -430,8 +432,14 @@ func TestConcurrentRunsOwnSignal(t *testing.T) {
 		if err != nil || crash != nil {
 			t.Fatalf("harness: %v %v", err, crash)
 		}
+		// the host's own option is a rendezvous: both runs are inside Run, applying their options, at the same time
 		opts := make([]runtimev2.Opt, 1, 8)
-		opts[0] = runtimev2.WithPrivate(map[runtimev2.TaskP]any{})
+		var arrived sync.WaitGroup
+		arrived.Add(2)
+		opts[0] = func(*runtimev2.Task) {
+			arrived.Done()
+			arrived.Wait()
+		}
 		sigA, sigB := &probe.Sig{FireAt: 3}, &probe.Sig{FireAt: 1000000}
 		var wg sync.WaitGroup
 		start := make(chan struct{})
